@@ -8,6 +8,8 @@ and on the real machine (pandora.run with per-step observers):
            the matching cost and after cbca; the constant float grid of every J against the scalar J;
   grid     every single / pair of per-pixel interval deviations from a constant grid: equal to the scalar run of the
            global interval inside each pixel's own interval, NaN outside (after the matching cost);
+  refine   the refinement step alone on every cost vector over {1,2,3} x every input disparity on the disparity axis
+           or at a quarter position between two samples (as filters produce): refined disparity inside the interval;
   pipe     single-scale pipelines (matching cost [cbca] wta + every sequence of post-disparity steps from the menu):
            after every step every valid pixel's disparity is inside the global interval; right after the disparity
            step and after refinements also inside its own interval; disparity_interval = the interval searched.
@@ -41,8 +43,9 @@ ASSUMPTIONS = [
     "own intervals differ, so 'same costs inside the pixel's interval' is claimed for the matching cost only",
     "a pixel is valid when its validity mask has none of the PANDORA_MSK_PIXEL_INVALID bits (0,1,6,7,8,9)",
     "own-interval clause checked after the disparity step and after refinement steps that directly follow it",
-    "quick tier rotates the measure over the post-disparity sequences and the subpix over the mask cells with "
-    "VERIF_SEED (every sequence / mask cell is run for every seed)",
+    "quick tier rotates with VERIF_SEED: the measure and the mask layout over the post-disparity sequences, the "
+    "(cbca, subpix) combination over the mask cells (every sequence / mask cell is run for every seed); the thorough "
+    "tier runs the full products",
     "pipelines contain at most one validation step",
 ]
 
@@ -91,12 +94,12 @@ def spaces(tier, seed):
     for m, w in MW:
         ny, nx = max(w, 2), w + 2
         for opt in _mask_options(ny, nx):
-            for cbca in (0, 1):
-                k += 1
-                for s in (SUBPIX if thorough else [SUBPIX[k % 3]]):
-                    sp = {"ny": ny, "nx": nx, "seed": seed, opt[0]: [[opt[1], opt[2], opt[3]]]}
-                    nested1.append({"kind": "nested", "m": m, "w": w, "s": s, "cbca": cbca,
-                                    "lim": 3 if thorough else 2, "const": 0, "spec": sp})
+            k += 1
+            # thorough: the full product; quick: one (cbca, subpix) combination per mask cell, rotated with the seed
+            for cbca, s in (itertools.product((0, 1), SUBPIX) if thorough else [(k % 2, SUBPIX[(k // 2) % 3])]):
+                sp = {"ny": ny, "nx": nx, "seed": seed, opt[0]: [[opt[1], opt[2], opt[3]]]}
+                nested1.append({"kind": "nested", "m": m, "w": w, "s": s, "cbca": cbca,
+                                "lim": 3 if thorough else 2, "const": 0, "spec": sp})
     for (m, w), s in itertools.product(MW, SUBPIX):
         ny, nx = max(w, 2), w + 2
         cells = [(r, c) for r in range(ny) for c in range(nx)]
@@ -123,17 +126,21 @@ def spaces(tier, seed):
                     for cbca in (0, 1):
                         k += 1
                         for m, w in (MW if thorough and len(seq) <= 2 else [MW[k % len(MW)]]):
-                            for lay in ("cell", "ring"):
+                            for lay in (("cell", "ring") if thorough else [("cell", "ring")[(k // 7) % 2]]):
                                 pipes.append({"kind": "pipe", "m": m, "w": w, "s": s, "cbca": cbca, "seq": list(seq),
                                               "form": form, "pair": pair, "seed": seed, "lay": lay,
                                               "dmin": -2 + (k % 2), "dmax": 1 + (k % 2)})
     pipes.sort(key=lambda c: len(c["seq"]))
+    refine = [{"kind": "refine", "method": meth, "s": s, "tm": tm}
+              for meth in ("vfit", "quadratic") for s in ((1, 2, 4) if thorough else (1, 2)) for tm in ("min", "max")]
     return [
         {"name": "nested intervals of [-3,3], no mask, +-cbca, constant grid vs scalar", "level": 0, "cases": nested0,
          "chunk": 1},
         {"name": "nested intervals with every single mask cell, +-cbca", "level": 1, "cases": nested1, "chunk": 2},
         {"name": "every single per-pixel interval deviation vs the scalar run", "level": 1, "cases": grid1,
          "chunk": 16},
+        {"name": "refinement step alone: every cost vector x every on-grid / filtered (off-grid) input disparity",
+         "level": 1, "cases": refine, "chunk": 1},
         {"name": "single-scale pipelines: every post-disparity sequence, final disparity inside the interval",
          "level": 1, "cases": pipes, "chunk": 4},
         {"name": "every pair of per-pixel interval deviations vs the scalar run", "level": 2, "cases": grid2,
@@ -400,16 +407,6 @@ def run_pipe(case):
     tag = (f"{m} w={w} subpix={s} cbca={case['cbca']} {case['form']} [{a},{b}] {case['pair']}/{case.get('lay', 'ring')} "
            f"post={names}")
     obs = P.run_observed(left, right, pipe, snapshot=("disp",))
-    if obs.error is not None:
-        stage, exc = obs.error
-        where = f"pipeline-{stage}"
-        if stage == "run" and len(obs.steps) < len(pipe):
-            # single scale, one observer record per executed step: the step that raised is the next one
-            failing = list(pipe)[len(obs.steps)]
-            where = _site(failing, pipe[failing], merge_refinement=False)
-        viol.append({"clause": "raises", "key": f"C09/raises/{where}/{type(exc).__name__}",
-                     "detail": f"{tag}: {stage} raised {exc!r} (no disparity map is produced)"})
-        return {"n": 1, "sigs": [], "viol": viol}
     n = 0
     prev = {}
     own_ok = True  # only disparity / refinement steps so far
@@ -448,9 +445,7 @@ def run_pipe(case):
                     fl = int(vm[r, c])
                     how = ("filled-occlusion" if fl & 16 else "filled-mismatch" if fl & 32 else "plain")
                     if kind == "refinement" and side in prev:
-                        # was the disparity handed to the refinement a sample of the cost volume's disparity axis?
-                        before = float(prev[side][r, c])
-                        how += "/on-grid-input" if (before * s) == np.floor(before * s) else "/off-grid-input"
+                        how = _grid_class(prev[side][r, c], s)
                     viol.append({
                         "clause": "final-disparity", "key": f"C09/final-disparity/{site}/{how}/{cls}",
                         "detail": f"{tag}: after {rec['step']} {side} pixel ({r},{c}) flags {fl} (valid) has disparity "
@@ -461,18 +456,43 @@ def run_pipe(case):
                     bad = valid & ~np.isnan(dm) & ((dm < g0) | (dm > g1)) & ~outv
                 if bad.any():
                     r, c = np.argwhere(bad)[0]
+                    key = f"C09/own-interval/{site}"
+                    if kind == "refinement" and side in prev:
+                        cls = _grid_class(prev[side][r, c], s)
+                        # one defect, one key: a refinement fed with an off-grid disparity (a previous refinement or
+                        # a filter produced it) leaves the global and the own interval for the same reason
+                        key = (f"C09/final-disparity/{site}/{cls}/outside" if cls == "off-grid-input"
+                               else f"C09/own-interval/{site}/{cls}")
                     viol.append({
-                        "clause": "own-interval", "key": f"C09/own-interval/{site}",
+                        "clause": "own-interval", "key": key,
                         "detail": f"{tag}: after {rec['step']} pixel ({r},{c}) flags {int(vm[r, c])} has disparity "
-                                  f"{dm[r, c]} outside its own [{g0[r, c]},{g1[r, c]}]"})
+                                  f"{dm[r, c]}" + (f" (before the step: {prev[side][r, c]})" if side in prev else "")
+                                  + f" outside its own [{g0[r, c]},{g1[r, c]}]"})
             prev[side] = dm
-            if side == "left" and rec is obs.steps[-1]:
+            if side == "left" and rec is obs.steps[-1] and obs.error is None:
                 if valid.any() and (~valid).any():
                     sigs.append(f"pipe|{m}|{w}|{s}|{case['cbca']}|{case['form']}|{names}|"
                                 f"{_digest(np.where(valid, dm, 0), vm)}")
         if len(viol) > found:
             break  # the later steps work on a map that already breaks the property: not attributed to them
+    if obs.error is not None and not viol:
+        # the steps completed before the exception were checked above; a map that already broke the property makes
+        # what follows (including an exception) a consequence, so the exception is reported only on a clean prefix
+        stage, exc = obs.error
+        where = f"pipeline-{stage}"
+        if stage == "run" and len(obs.steps) < len(pipe):
+            # single scale, one observer record per executed step: the step that raised is the next one
+            failing = list(pipe)[len(obs.steps)]
+            where = _site(failing, pipe[failing], merge_refinement=False)
+        viol.append({"clause": "raises", "key": f"C09/raises/{where}/{type(exc).__name__}",
+                     "detail": f"{tag}: {stage} raised {exc!r} (no disparity map is produced)"})
     return {"n": max(n, 1), "sigs": sigs, "viol": _dedupe(viol), "trivial": 0 if sigs else 1}
+
+
+def _grid_class(before, subpix):
+    """was the disparity handed to the refinement a sample of the cost volume's disparity axis?"""
+    before = float(before)
+    return "on-grid-input" if (before * subpix) == np.floor(before * subpix) else "off-grid-input"
 
 
 def _site(step, cfg, merge_refinement=True):
@@ -488,7 +508,67 @@ def _site(step, cfg, merge_refinement=True):
     return f"{kind}-{meth}"
 
 
+def run_refine(case):
+    """
+    the refinement step on synthetic volumes: each pixel = (cost vector over {1,2,3}, input disparity); input
+    disparities are every sample of the disparity axis (what wta / a median filter hand over) and the quarter
+    positions between two samples (what a bilateral or median filter may hand over).  Oracle: every valid pixel's
+    refined disparity is inside [dmin, dmax].
+    """
+    from pandora import refinement  # pylint: disable=import-outside-toplevel
+
+    from mc.drivers import datasets as D  # pylint: disable=import-outside-toplevel
+
+    meth, s, tm = case["method"], case["s"], case["tm"]
+    dmin, dmax = -1, 1
+    axis = RC.sampled_disparities(dmin, dmax, s)
+    nd = len(axis)
+    vecs = []
+    for v in itertools.product((1.0, 2.0, 3.0), repeat=nd):
+        # quadratic divides by zero on a flat triple (anticipated defect A2, property C06): one such pixel aborts the
+        # whole call, so flat triples are kept out of this packed image (the pipeline space meets them)
+        # (the triple (v[-1], v[0], v[1]) is what the step reads for an input between the first two samples)
+        if meth == "quadratic" and any(v[i - 1] == v[i] == v[i + 1] for i in range(nd - 1)):
+            continue
+        vecs.append(v)
+    inputs = [("on", d) for d in axis] + [("off", axis[k] + f / s) for k in range(nd - 1) for f in (0.25, 0.5, 0.75)]
+    pix = list(itertools.product(vecs, inputs))
+    costs = np.array([p[0] for p in pix], dtype=np.float32).reshape(1, len(pix), nd)
+    dmap = np.array([p[1][1] for p in pix], dtype=np.float32).reshape(1, len(pix))
+    on = np.array([p[1][0] == "on" for p in pix]).reshape(1, len(pix))
+    cv = D.cost_volume(costs, np.asarray(axis), type_measure=tm, subpix=s)
+    disp = D.disparity(dmap, interval=[dmin, dmax], subpix=s, type_measure=tm)
+    tag = f"refinement {meth} subpix={s} type_measure={tm} axis={axis}"
+    viol = []
+    try:
+        refinement.AbstractRefinement(**{"refinement_method": meth}).subpixel_refinement(cv, disp)
+    except Exception as e:  # pylint: disable=broad-except
+        viol.append({"clause": "raises", "key": f"C09/raises/refinement-{meth}/{type(e).__name__}",
+                     "detail": f"{tag}: {e!r}"})
+        return {"n": 1, "sigs": [], "viol": viol}
+    out = disp["disparity_map"].data
+    valid = (disp["validity_mask"].data & INVALID_BITS) == 0
+    with np.errstate(invalid="ignore"):
+        outside = valid & ~np.isnan(out) & ((out < dmin) | (out > dmax))
+    nanv = valid & np.isnan(out)
+    for cls, msk in (("outside", outside), ("nan", nanv)):
+        for grid, sel in (("on-grid-input", on), ("off-grid-input", ~on)):
+            bad = msk & sel
+            if bad.any():
+                _, c = np.argwhere(bad)[0]
+                viol.append({
+                    "clause": "final-disparity", "key": f"C09/final-disparity/refinement/{grid}/{cls}",
+                    "detail": f"{tag}: a valid pixel with costs {costs[0, c].tolist()} and input disparity "
+                              f"{float(dmap[0, c])} is refined to {float(out[0, c])}, outside the interval "
+                              f"[{dmin},{dmax}] [{int(bad.sum())} of {int(sel.sum())} {grid} pixels]"})
+    moved = int((out != dmap).sum())
+    return {"n": len(pix), "sigs": [f"refine|{meth}|{s}|{tm}|{_digest(out)}"] if moved else [], "viol": viol,
+            "trivial": 0 if moved else len(pix)}
+
+
 def run_case(case):
+    if case["kind"] == "refine":
+        return run_refine(case)
     if case["kind"] == "nested":
         return run_nested(case)
     if case["kind"] == "grid":
